@@ -299,6 +299,8 @@ pub fn run(ctx: &mut Ctx) {
                             let b = r2::b32(a);
                             ctx.unique(site.name, &b[..16]);
                             ctx.bits(site.name, if site.sm9 { "sm9" } else { "sm2" }, &b);
+                            ctx.bits(if site.sm9 { "sm9.*pooled" } else { "sm2.*pooled" }, if site.sm9 { "sm9" } else { "sm2" }, &b);
+                            ctx.rot(if site.sm9 { "sm9.*pooled" } else { "sm2.*pooled" }, &b);
                             ctx.distinct("scalar", &[&b]);
                         }
                     }
@@ -463,8 +465,13 @@ pub fn run(ctx: &mut Ctx) {
                                 ctx.violation(&format!("{}:out-of-range-candidate-accepted:{}", site.name, bn), json!({"site": site.name, "candidate": hex::encode(r2::b32(bv)), "class": bn}));
                             }
                         }
+                        // every injected out-of-range candidate must be REJECTED, i.e. have no influence: the scalar
+                        // that leaves the generator is the valid candidate queued behind them
                         if seen.accepted.last() == Some(&good) && seen.pending == 0 {
                             ctx.class("injection_rejected_then_valid_used");
+                        } else {
+                            ctx.violation(&format!("{}:out-of-range-candidate-not-rejected:{}", site.name, bn), json!({"site": site.name, "candidate": hex::encode(r2::b32(bv)), "class": bn,
+                                "queued_valid": hex::encode(r2::b32(&good)), "accepted": seen.accepted.iter().map(|a| if a.bits() <= 256 { hex::encode(r2::b32(a)) } else { "overflow".into() }).collect::<Vec<_>>(), "queue_left": seen.pending}));
                         }
                     }
                     Err(e) => ctx.violation(&format!("{}:inject:{}", site.name, e), json!({"site": site.name, "candidate": hex::encode(r2::b32(bv))})),
